@@ -100,6 +100,53 @@ func (m *LexModel) consistent(st *State, names []string, v int64) bool {
 	return true
 }
 
+// runeMembership: strings.ContainsRune(<written-out text>, r) is the condition "r is one of these runes", rendered
+// In_<hex>_<hex>…(r) so that the rune solvers can evaluate it like a comparison.
+func runeMembership(callee *ssa.Function, args []AV) (AV, bool) {
+	if extName(callee) != "strings.ContainsRune" || len(args) != 2 || args[0].K != KStr {
+		return AV{}, false
+	}
+	set := map[int64]bool{}
+	for _, r := range args[0].S {
+		set[int64(r)] = true
+	}
+	switch args[1].K {
+	case KInt:
+		return BoolV(set[args[1].I]), true
+	case KSym:
+		var ks []int64
+		for k := range set {
+			ks = append(ks, k)
+		}
+		sort.Slice(ks, func(i, j int) bool { return ks[i] < ks[j] })
+		name := "In"
+		for _, k := range ks {
+			name += "_" + strconv.FormatInt(k, 16)
+		}
+		if len(name)+len(args[1].S)+2 > 300 {
+			return AV{}, false
+		}
+		return Sym(name + "(" + args[1].S + ")"), true
+	}
+	return AV{}, false
+}
+
+// membershipSet decodes the name made by runeMembership.
+func membershipSet(name string) (map[int64]bool, bool) {
+	if !strings.HasPrefix(name, "In_") && name != "In" {
+		return nil, false
+	}
+	set := map[int64]bool{}
+	for _, h := range strings.Split(name, "_")[1:] {
+		k, err := strconv.ParseInt(h, 16, 64)
+		if err != nil {
+			return nil, false
+		}
+		set[k] = true
+	}
+	return set, true
+}
+
 // evalCondWith evaluates a rendered condition with every alias replaced by v.
 func evalCondWith(cond string, names []string, v int64) (bool, bool) {
 	isName := func(s string) bool {
@@ -129,6 +176,9 @@ func evalCondWith(cond string, names []string, v int64) (bool, bool) {
 		return a == b, true
 	}
 	if mm := reCall.FindStringSubmatch(cond); mm != nil && isName(mm[2]) {
+		if set, ok := membershipSet(mm[1]); ok {
+			return set[v], true
+		}
 		switch mm[1] {
 		case "IsLetter":
 			return unicode.IsLetter(rune(v)), true
@@ -667,6 +717,15 @@ func (m *LexModel) Call(mc *Machine, st *State, call ssa.CallInstruction, callee
 			}
 			if a.K == KSym {
 				return []Outcome{{Result: Sym(callee.Name() + "(" + a.S + ")")}}, true
+			}
+		}
+		{
+			var ra []AV
+			for _, a := range args {
+				ra = append(ra, mc.resolve(st, a))
+			}
+			if r, ok := runeMembership(callee, ra); ok {
+				return []Outcome{{Result: r}}, true
 			}
 		}
 		res := Sym(callee.Name() + "(" + strings.Join(argStrings(args), ",") + ")")
